@@ -260,7 +260,7 @@ def path_values():
     vals = [("str", "x", True), ("str-dir", "d/x", True), ("str-abs", "/abs/x", True), ("str-space", "with space", True), ("str-unicode", "é", True),
             ("Path", pathlib.Path("d/x"), True), ("PurePath-abs", pathlib.PurePosixPath("/abs/x"), True), ("fspath", FsPath("d/y"), True),
             ("empty", "", False), ("None", None, False), ("int", 5, False), ("bytes", b"x", False), ("float", 1.5, False)]
-    ctrl = [chr(c) for c in range(0, 32)] + ["\x7f"]
+    ctrl = [chr(c) for c in range(0, 32)] + ["\x7f"] + [chr(c) for c in range(0x80, 0xA0)]  # Unicode category Cc: C0, DEL and C1
     for ch in ctrl:
         for pos, v in (("start", ch + "x"), ("mid", "x" + ch + "y"), ("end", "x" + ch)):
             vals.append((f"ctrl-{ord(ch):02x}-{pos}", v, False))
@@ -322,19 +322,22 @@ def map_batch(acc, batch):
         def __call__(self, a, b="B", extra=None):
             return tpl(a, b, extra)
 
-    for kind, n, naming, use_extra, callable_kind in batch:
+    for kind, n, naming, use_extra, callable_kind, *rest in batch:
+        container = rest[0] if rest else "list"
         items = {"str": ["s0", "s1", "s2"], "tuple": [("t0", "u0"), ("t1", "u1"), ("t2", "u2")], "dict": [dict(a="d0", b="e0"), dict(a="d1"), dict(a="d2", b="e2")]}[kind][:n]
+        # the items may come as any iterable: a list, a tuple, a one-shot iterator or a generator
+        wrap = {"list": list, "tuple": tuple, "iter": iter, "generator": (lambda xs: (x for x in xs)), "dictkeys": (lambda xs: {x: None for x in xs}.keys())}[container]
         func = tpl if callable_kind == "function" else Callable()
         name = {"none": None, "string": "pre", "function": (lambda idx, t: f"n{idx}_{len(t.outputs)}"), "function_dup": (lambda idx, t: "same")}[naming]
         runs = []
         for _rep in range(2):
             wf = Workflow(working_dir="/wd")
             try:
-                res = wf.map(func, items, extra={"extra": "X"} if use_extra else None, name=name)
+                res = wf.map(func, wrap(items), extra={"extra": "X"} if use_extra else None, name=name)
                 runs.append(([t.name for t in res], sorted(wf.targets), [t.outputs for t in res]))
             except Exception as e:
                 runs.append(f"{type(e).__name__}: {e}")
-        case = dict(kind="map", items=kind, n=n, naming=naming, extra=use_extra, callable=callable_kind)
+        case = dict(kind="map", items=kind, n=n, naming=naming, extra=use_extra, callable=callable_kind, container=container)
         problems = []
         if naming == "function_dup":
             # a naming function that gives two items the same name: names must be unique, so the definition must be rejected
@@ -373,9 +376,9 @@ def run(ctx):
     ctx.pmap(me, "cmd_batch", [(i, c) for i in CMD_INITS for c in CMDS], chunk=2)
     ctx.pmap(me, "names_batch", list(NAMES), chunk=4)
     ctx.pmap(me, "paths_batch", path_values(), chunk=8)
-    ctx.pmap(me, "map_batch", [(k, n, nm, ex, ck) for k in ("str", "tuple", "dict") for n in range(0, 4) for nm in ("none", "string", "function", "function_dup") for ex in (False, True)
-                               for ck in ("function", "instance")], chunk=8)
-    ctx.rule = "where: (creation way, workflow working_dir, invoking directory); cmd: (initial project state, command, invoking directory) compared with the same command from the project root; names: (name, entry point); paths: (value, container, side); map: (item kind, n, naming, extra, callable kind)"
+    ctx.pmap(me, "map_batch", [(k, n, nm, ex, ck, cont) for k in ("str", "tuple", "dict") for n in range(0, 4) for nm in ("none", "string", "function", "function_dup") for ex in (False, True)
+                               for ck in ("function", "instance") for cont in ("list", "tuple", "iter", "generator", "dictkeys") if not (cont == "dictkeys" and k == "dict")], chunk=16)
+    ctx.rule = "where: (creation way, workflow working_dir, invoking directory); cmd: (initial project state, command, invoking directory) compared with the same command from the project root; names: (name, entry point); paths: (value, container, side); map: (item kind, n, naming, extra, callable kind, iterable kind)"
     ctx.bound = dict(hows=len(HOWS), wf_wds=len(WF_WDS), invoke=len(INVOKE), cmd_inits=list(CMD_INITS), cmds=len(CMDS), names=len(NAMES), path_values=len(path_values()), containers=len(CONTAINERS))
     ctx.assumptions = ["dotted / non-ASCII names are not demanded either way ('identifier-like')", "in-process invocation with os.chdir per case (fresh-process tier: see DESIGN §3.7)"]
 
@@ -398,5 +401,5 @@ def replay(case):
         vals = [v for v in path_values() if v[0] == case["value"]]
         paths_batch(acc, vals)
         return [v for v in acc.violations if v["case"]["container"] == case["container"] and v["case"]["side"] == case["side"]] or acc.violations[:1]
-    map_batch(acc, [(case["items"], case["n"], case["naming"], case["extra"], case["callable"])])
+    map_batch(acc, [(case["items"], case["n"], case["naming"], case["extra"], case["callable"], case.get("container", "list"))])
     return acc.violations
